@@ -31,6 +31,34 @@ INF = 100000  # rank used for FLOAT_MAX / "infinity" in traces
 JAR = "/opt/veriftools/tla/tla2tools.jar:/opt/veriftools/tla/CommunityModules-deps.jar"
 
 
+class CallTimeout(Exception):
+    """A call into the code under test did not return within its time limit (a non-terminating loop is a verdict, not a hang)."""
+
+
+class time_limit:
+    """with time_limit(seconds): ...   raises CallTimeout inside the block when it runs longer (main thread, SIGALRM)."""
+
+    def __init__(self, seconds):
+        self.seconds = seconds
+
+    def __enter__(self):
+        import signal
+
+        def on_alarm(signum, frame):
+            raise CallTimeout("no result within %d s" % self.seconds)
+
+        self.old = signal.signal(signal.SIGALRM, on_alarm)
+        signal.setitimer(signal.ITIMER_REAL, self.seconds)
+        return self
+
+    def __exit__(self, *a):
+        import signal
+
+        signal.setitimer(signal.ITIMER_REAL, 0)
+        signal.signal(signal.SIGALRM, self.old)
+        return False
+
+
 class MachineryError(Exception):
     """Anything that is not a verdict about the code: TLC crash, timeout, vacuity, spec-level failure."""
 
